@@ -73,19 +73,34 @@ def walletIdV5R1 (o : Opts) : Nat := genContextID o.wc ^^^ toU32 o.netOr
 def pkBytes (pk : List UInt8) : List UInt8 := pk.take 32 ++ List.replicate (32 - pk.length) 0
 def pkBits (pk : List UInt8) : List Bool := bytesToBits (pkBytes pk)
 
-/-- the marshalled data struct of a fresh wallet (seqno 0) -/
-def dataBits (v : Version) (pk : List UInt8) (o : Opts) : List Bool :=
+/-- the marshalled data struct of a wallet whose stored seqno is `seqno` (the other fields as a fresh wallet has them) -/
+def dataBitsSeq (v : Version) (seqno : Nat) (pk : List UInt8) (o : Opts) : List Bool :=
   match v.family with
-  | .v1v2 => natToBits 32 0 ++ pkBits pk                                       -- DataV1V2{Seqno, PublicKey}
-  | .v3 => natToBits 32 0 ++ natToBits 32 o.subDefault ++ pkBits pk            -- DataV3{Seqno, SubWalletId, PublicKey}
-  | .v4 => natToBits 32 0 ++ natToBits 32 o.subDefault ++ pkBits pk ++ [false] -- DataV4{…, PluginDict empty}
-  | .v5beta =>                                                                 -- DataV5Beta{Seqno Uint33, WalletV5ID, PublicKey, Extensions}
-    natToBits 33 0 ++ (natToBits 32 (toU32 o.netOr) ++ natToBits 8 (toU8 o.wc) ++ natToBits 8 0 ++
+  | .v1v2 => natToBits 32 seqno ++ pkBits pk                                       -- DataV1V2{Seqno, PublicKey}
+  | .v3 => natToBits 32 seqno ++ natToBits 32 o.subDefault ++ pkBits pk            -- DataV3{Seqno, SubWalletId, PublicKey}
+  | .v4 => natToBits 32 seqno ++ natToBits 32 o.subDefault ++ pkBits pk ++ [false] -- DataV4{…, PluginDict empty}
+  | .v5beta =>                                                                     -- DataV5Beta{Seqno Uint33, WalletV5ID, PublicKey, Extensions}
+    natToBits 33 seqno ++ (natToBits 32 (toU32 o.netOr) ++ natToBits 8 (toU8 o.wc) ++ natToBits 8 0 ++
       natToBits 32 (o.subWallet.getD 0)) ++ pkBits pk ++ [false]
-  | .v5r1 =>                                                                   -- DataV5R1{IsSignatureAllowed, Seqno, WalletID, PublicKey, Extensions}
-    [true] ++ natToBits 32 0 ++ natToBits 32 (walletIdV5R1 o) ++ pkBits pk ++ [false]
-  | .highload =>                                                               -- DataHighloadV2{SubWalletId, LastCleanedTime, PublicKey, Queries}
+  | .v5r1 =>                                                                       -- DataV5R1{IsSignatureAllowed, Seqno, WalletID, PublicKey, Extensions}
+    [true] ++ natToBits 32 seqno ++ natToBits 32 (walletIdV5R1 o) ++ pkBits pk ++ [false]
+  | .highload =>                                                                   -- DataHighloadV2{SubWalletId, LastCleanedTime, PublicKey, Queries}
     natToBits 32 o.subDefault ++ natToBits 64 0 ++ pkBits pk ++ [false]
+
+/-- the data of a fresh wallet: seqno 0 -/
+def dataBits (v : Version) (pk : List UInt8) (o : Opts) : List Bool := dataBitsSeq v 0 pk o
+
+/-- the identifying fields, besides the key, that the version's data holds (used to state injectivity): sub-wallet id
+for v3/v4/highload, (network id, workchain byte, sub-wallet id) for v5 beta, the wallet id for v5r1, nothing for v1/v2 -/
+def identFields (v : Version) (o : Opts) : List Nat :=
+  match v.family with
+  | .v1v2 => []
+  | .v3 | .v4 | .highload => [o.subDefault]
+  | .v5beta => [toU32 o.netOr, toU8 o.wc, o.subWallet.getD 0]
+  | .v5r1 => [walletIdV5R1 o]
+
+/-- option values as Go can hold them: sub-wallet id is a uint32 -/
+def Opts.WF (o : Opts) : Prop := ∀ s, o.subWallet = some s → s < 4294967296
 
 def dataCell (v : Version) (pk : List UInt8) (o : Opts) : Cell := .ordinary (dataBits v pk o) []
 
